@@ -244,8 +244,56 @@ package model
 //@   loop 0 invariant new-kept: *newData == N && filterData.Selector != nil
 //@ func HasIdentifiers trusted reflective
 //@   modifies nothing
-//@ func Merge trusted reflective
-//@   modifies cells(T)
+//@ func updateFields trusted reflective
+//@   ensures destination != nil ==> *destination == updf(remoteWrite, source, old(*destination))
+//@   modifies *destination
+
+// the identifier -> item map of a list: holds exactly the identifiers of the list, each with an item carrying it
+//@ func ToMap reflective
+//@   ensures[C02,C04] keys: forall k string :: has(result, k) <==> (exists i int :: 0 <= i && i < len(s) && hkey(s[i]) == k)
+//@   ensures[C02,C04] values: forall k string :: has(result, k) ==> exists i int :: 0 <= i && i < len(s) && hkey(s[i]) == k && result[k] == s[i]
+//@   ensures[C02,C04] fresh-map: result != nil && fresh(result)
+//@   modifies nothing
+//@   loop 0 invariant own: result != nil && fresh(result)
+//@   loop 0 invariant keys: forall k string :: has(result, k) <==> (exists i int :: 0 <= i && i < $k && hkey($s[i]) == k)
+//@   loop 0 invariant values: forall k string :: has(result, k) ==> exists i int :: 0 <= i && i < $k && hkey($s[i]) == k && result[k] == $s[i]
+//@   loop 0 invariant others: mapsUnchangedOld(gomap[string]T)
+
+// merge by identifier (C02, C04): every existing item stays in place - replaced, when the update carries its identifier
+// and the write may touch it, by the update's item completed with the fields it does not mention (updf); on local
+// updates the items with new identifiers are appended in order; a remote write fails iff it addresses an item it may
+// not touch, and only then; neither input list is written
+//@ func Merge reflective
+//@   let A = s1
+//@   let B = s2
+//@   define addressed(x) = exists j int :: 0 <= j && j < len(B) && hkey(B[j]) == hkey(x)
+//@   define isNew(y) = !(exists i int :: 0 <= i && i < len(A) && hkey(A[i]) == hkey(y))
+//@   filter N loop 1 src B keep isNew
+//@   ensures[C02,C04] existing-in-place: len(result0) >= len(A) && forall i int :: 0 <= i && i < len(A) && !(addressed(A[i]) && !blocked(remoteWrite, A[i])) ==> result0[i] == A[i]
+//@   ensures[C02,C04] addressed-merged: forall i int :: 0 <= i && i < len(A) && addressed(A[i]) && !blocked(remoteWrite, A[i]) ==> exists j int :: 0 <= j && j < len(B) && hkey(B[j]) == hkey(A[i]) && result0[i] == updf(remoteWrite, A[i], B[j])
+//@   ensures[C04] remote-never-appends: remoteWrite ==> len(result0) == len(A)
+//@   ensures[C02] local-appends-new: !remoteWrite ==> len(result0) == len(A) + Ncnt(len(B)) && forall j int :: 0 <= j && j < len(B) && isNew(B[j]) ==> result0[len(A) + Ncnt(j)] == B[j]
+//@   ensures[C04] fails-only-if-protected: !result1 ==> exists i int :: 0 <= i && i < len(A) && blocked(remoteWrite, A[i])
+//@   ensures[C04] addressed-protected-fails: (exists i int :: 0 <= i && i < len(A) && addressed(A[i]) && blocked(remoteWrite, A[i])) ==> !result1
+//@   ensures[C04] unaddressed-do-not-fail: (forall i int :: 0 <= i && i < len(A) && addressed(A[i]) ==> !blocked(remoteWrite, A[i])) ==> result1
+//@   ensures[C11,C04] inputs-untouched: (forall i int :: 0 <= i && i < len(A) ==> A[i] == old(A[i])) && (forall j int :: 0 <= j && j < len(B) ==> B[j] == old(B[j]))
+//@   modifies nothing
+//@   loop 0 invariant acc: (result == nil || freshPre(result)) && len(result) == $k && $s == A
+//@   loop 0 invariant m2: m2 != nil && (forall k string :: has(m2, k) <==> (exists j int :: 0 <= j && j < len(B) && hkey(B[j]) == k)) && (forall k string :: has(m2, k) ==> exists j int :: 0 <= j && j < len(B) && hkey(B[j]) == k && m2[k] == B[j])
+//@   loop 0 invariant m1: m1 != nil && fresh(m1) && m1 != m2 && (forall k string :: has(m1, k) <==> (exists i int :: 0 <= i && i < $k && hkey(A[i]) == k))
+//@   loop 0 invariant kept: forall i int :: 0 <= i && i < $k && !(addressed(A[i]) && !blocked(remoteWrite, A[i])) ==> result[i] == A[i]
+//@   loop 0 invariant merged: forall i int :: 0 <= i && i < $k && addressed(A[i]) && !blocked(remoteWrite, A[i]) ==> exists j int :: 0 <= j && j < len(B) && hkey(B[j]) == hkey(A[i]) && result[i] == updf(remoteWrite, A[i], B[j])
+//@   loop 0 invariant ok: success <==> (forall i int :: 0 <= i && i < $k ==> !blocked(remoteWrite, A[i]))
+//@   loop 0 invariant inputs: (forall i int :: 0 <= i && i < len(A) ==> A[i] == old(A[i])) && (forall j int :: 0 <= j && j < len(B) ==> B[j] == old(B[j]))
+//@   loop 0 invariant other-maps: mapsUnchangedOld(gomap[string]T)
+//@   loop 1 invariant other-maps: mapsUnchangedOld(gomap[string]T)
+//@   loop 1 invariant acc: (result == nil || freshPre(result) || fresh(result)) && $s == B
+//@   loop 1 invariant len: len(result) == len(A) + ite(remoteWrite, 0, Ncnt($k))
+//@   loop 1 invariant kept: forall i int :: 0 <= i && i < len(A) && !(addressed(A[i]) && !blocked(remoteWrite, A[i])) ==> result[i] == A[i]
+//@   loop 1 invariant merged: forall i int :: 0 <= i && i < len(A) && addressed(A[i]) && !blocked(remoteWrite, A[i]) ==> exists j int :: 0 <= j && j < len(B) && hkey(B[j]) == hkey(A[i]) && result[i] == updf(remoteWrite, A[i], B[j])
+//@   loop 1 invariant tail: !remoteWrite ==> forall j int :: 0 <= j && j < $k && isNew(B[j]) ==> result[len(A) + Ncnt(j)] == B[j]
+//@   loop 1 invariant m1: forall k string :: has(m1, k) <==> (exists i int :: 0 <= i && i < len(A) && hkey(A[i]) == k)
+//@   loop 1 invariant inputs: (forall i int :: 0 <= i && i < len(A) ==> A[i] == old(A[i])) && (forall j int :: 0 <= j && j < len(B) ==> B[j] == old(B[j]))
 //@ func SortData trusted reflective
 //@   modifies cells(T)
 // The engine's own body (no loop): the SPINE cmdOption order - delete filter first (its result is used only when it
